@@ -2,7 +2,7 @@
 from checks import symgen, refqr, refmicro, refrmqr
 
 ID = 'C05'
-PROP_MODULES = ['QRV.Props.C05', 'QRV.Props.C05Ext', 'QRV.Props.C05TooLarge', 'QRV.Props.C05TooLarge2', 'QRV.Props.C05TooLargeKanji', 'QRV.Props.C05EmptyRMQR', 'QRV.Props.C05New']
+PROP_MODULES = ['QRV.Props.C05', 'QRV.Props.C05Ext', 'QRV.Props.C05TooLarge', 'QRV.Props.C05TooLarge2', 'QRV.Props.C05TooLargeKanji', 'QRV.Props.C05EmptyRMQR', 'QRV.Props.C05New', 'QRV.Props.C05TooLargeKanji2']
 RULE = ('for every (version, level) row and every mode: payloads of max-1, max, max+1 characters of that row\'s capacity (digits, alphanumerics, bytes, kanji) and mixed-mode payloads '
         'straddling it, x kanji on/off x rMQR priorities {area, height, width}. Oracle: the returned version holds the returned segments by the standard\'s exact bit lengths (kanji per '
         'character), no smaller admissible version (QR: lower number; Micro QR: lower admissible version; rMQR: smaller area / height / width) holds them, and "too large" is answered '
@@ -13,12 +13,12 @@ TRUSTED = [
     'models of calcVersion / segment length tied by correspondence',
 ]
 ASSUMPTIONS = []
-PARTIAL = 'minimality is a theorem on New itself for all three packages (C05New: qr_/micro_new_minimal, rmqr_new_least, rmqr_new_first_fit; empty payloads included: rmqr_new_empty_least after defect D22) and on calcVersion for any segment list; length_agrees for QR, Micro QR (lowest admissible version) and rMQR (least height / least width; least area fails: finding D19); the too-large clause is a theorem for QR (kanji off: qr_new_not_too_large, exact per-segment accounting of the rounding between the DP costs in sixths of a bit and the true bit lengths; kanji on: qr_new_kanji_not_too_large, by the byte-mode fallback of the repaired source - defect D21), Micro QR and rMQR without kanji (micro_/rmqr_new_not_too_large); Micro QR / rMQR with kanji: exercised at the byte capacity of the largest symbol with rounding-adversarial payloads'
+PARTIAL = 'minimality is a theorem on New itself for all three packages (C05New: qr_/micro_new_minimal, rmqr_new_least, rmqr_new_first_fit; empty payloads included: rmqr_new_empty_least after defect D22) and on calcVersion for any segment list; length_agrees for QR, Micro QR (lowest admissible version) and rMQR (least height / least width; least area fails: finding D19); the too-large clause is a theorem for QR (kanji off: qr_new_not_too_large, exact per-segment accounting of the rounding between the DP costs in sixths of a bit and the true bit lengths; kanji on: qr_new_kanji_not_too_large, by the byte-mode fallback of the repaired source - defect D21), Micro QR and rMQR without kanji (micro_/rmqr_new_not_too_large); Micro QR / rMQR with kanji: micro_/rmqr_new_kanji_not_too_large (C05TooLargeKanji2: these programmes charge the QR version-40 headers, every segment gains more from its shorter real header than rounding can cost) - so the too-large clause is a theorem for all six programmes; what stays exercised only is the area priority of rMQR (finding D19)'
 MANIFEST = {
     'technique': 'Lean 4: calcVersion is a first-fit scan (QR, Micro QR: the minimal version; rMQR: the first fitting entry of an order list whose sortedness by height / width is kernel-evaluated, hence least height / width), model segment length = standard bit length in all three packages; boundary payloads by differential runs',
     'text': ('QRV/Props/C05.lean proves: the model\'s segment length equals the standard\'s bit length for every mode, version and remainder class (kanji per character); QR calcVersion returns a version that '
              'holds the segments and no smaller one does, and 0 only if none of 1..40 does; rMQR calcVersion returns the FIRST entry of the order list of the requested priority that holds them, and the height and '
-             'width lists are sorted by that measure (kernel evaluation), hence a version of least height / width. QRV/Props/C05Ext.lean proves the Micro QR and rMQR length functions equal the standard\'s (mode availability per version, kanji per character), that Micro QR calcVersion returns the lowest version that holds the segments at the level (legal pairs and data bits related to the standard\'s table by kernel evaluation), and that rMQR with priority height / width returns a version of least height / width among ALL versions that hold them. Props/C05TooLarge*.lean: New reports too large only if the payload does not fit the largest symbol even as a single byte-mode segment - QR with and without kanji, Micro QR and rMQR without kanji (the kanji-on QR case was FALSE on the pinned tree: defect D21, found by the proof attempt, repaired by a fix: commit; the counterexample is kept formally in C05TooLarge2). The area list is NOT sorted by area on the pinned tree (finding D19). Minimality against the '
+             'width lists are sorted by that measure (kernel evaluation), hence a version of least height / width. QRV/Props/C05Ext.lean proves the Micro QR and rMQR length functions equal the standard\'s (mode availability per version, kanji per character), that Micro QR calcVersion returns the lowest version that holds the segments at the level (legal pairs and data bits related to the standard\'s table by kernel evaluation), and that rMQR with priority height / width returns a version of least height / width among ALL versions that hold them. Props/C05TooLarge*.lean: New reports too large only if the payload does not fit the largest symbol even as a single byte-mode segment - QR with and without kanji, Micro QR and rMQR with and without kanji (Props/C05TooLargeKanji2.lean for the kanji programmes of those two packages; the kanji-on QR case was FALSE on the pinned tree: defect D21, found by the proof attempt, repaired by a fix: commit; the counterexample is kept formally in C05TooLarge2). The area list is NOT sorted by area on the pinned tree (finding D19). Minimality against the '
              'Props/C05New.lean states the first clause on New itself (both mode-selection programmes, the empty payload, the byte fallback): the version New returns holds the segments New returns and no smaller version does (QR, Micro QR), has least height / width among all versions (rMQR), is the first fitting entry of the order list (any rMQR priority). '
              'independent reference tables and the too-large clause are exercised at every (version, level, mode) capacity boundary.'),
     'note': 'Trusted: Lean kernel; models tied by correspondence; reference capacities (rMQR rows not independent).',
